@@ -86,6 +86,23 @@ def answer (w : W) (kind : String) (r : Rel) (arg : String) : String :=
     join (parents.map (fun p => s!"{labelOf w p.id}:count={(children db r p).length},sum={sumX (children db r p)}"))
   else if kind == "aggf" then
     join (parents.map (fun p => s!"{labelOf w p.id}:count={((children db r p).filter gt).length}"))
+  else if kind == "kidsor" || kind == "pfilteror" || kind == "cfilteror" then
+    -- arg = "a,b": x = a or x = b
+    let ab := arg.splitOn ","
+    let a : Int := (ab.headD "0").toInt?.getD 0
+    let b : Int := ((ab.drop 1).headD "0").toInt?.getD 0
+    let alt (d : Doc) : Bool := match d.x with | some x => x == a || x == b | none => false
+    if kind == "kidsor" then
+      join (parents.map (fun p => labelOf w p.id ++ ":" ++ kidsStr w ((children db r p).filter alt)))
+    else if kind == "pfilteror" then join ((parentsWith db r alt).map (fun p => labelOf w p.id))
+    else join ((childrenWith db r alt).map (fun c => labelOf w c.id))
+  else if kind == "kidsor2" then
+    -- arg = "a,name": x = a and name = name
+    let ab := arg.splitOn ","
+    let a : Int := (ab.headD "0").toInt?.getD 0
+    let nm := (ab.drop 1).headD ""
+    let both (d : Doc) : Bool := (match d.x with | some x => x == a | none => false) && d.name == nm
+    join (parents.map (fun p => labelOf w p.id ++ ":" ++ kidsStr w ((children db r p).filter both)))
   else if kind == "kidsaggf" || kind == "agg2f" then
     -- arg = "a,b": related documents with x > a, and those with a < x < b
     let ab := arg.splitOn ","
